@@ -67,6 +67,7 @@ struct E7 : Engine {
 					else { o["op"] = "gc"; }
 					l.push(o); }
 				th.push(l); }
+			if(r.below(3) == 0){ p["procs"] = 2; p["file_lock"] = 1; }   // two processes (two storage objects, each with its own per-session mutexes) share the directory: only the fcntl record locks order them
 			p["conc"] = th; p["sched_seed"] = (unsigned long long)(r.next() >> 8); p["strategy"] = (int)r.below(3); p["pct_depth"] = 1 + (int)r.below(3); p["pct_len"] = 30 + (int)r.below(600); }
 		return p;
 	}
@@ -185,7 +186,9 @@ struct E7 : Engine {
 			struct W { uint64_t st, en; bool present; Saved s; };
 			std::map<std::string,std::vector<W>> ws; uint64_t ev = 0; c.cnt["concurrent_runs"]++;
 			for(int i=0;i<2;i++){ std::string sid = sid_name(i); SidModel &m = c.model[sid]; W w; w.st = w.en = 0; w.present = m.present; w.s = m.cur; ws[sid].reserve(32); ws[sid].push_back(w); }
-			session_file_storage_factory f(DIR_,5,1,file_lock); booster::shared_ptr<session_storage> st = f.get(); int64_t now0 = c.now();
+			int procs = plan.geti("procs") == 2 && file_lock ? 2 : 1; if(procs == 2) c.cnt["two_process_runs"]++;
+			session_file_storage_factory f(DIR_,5,procs,file_lock); booster::shared_ptr<session_storage> st = f.get(); int64_t now0 = c.now();
+			std::unique_ptr<session_file_storage_factory> f2; booster::shared_ptr<session_storage> st2; if(procs == 2){ f2.reset(new session_file_storage_factory(DIR_,5,2,true)); st2 = f2->get(); }
 			auto judge_load = [&](const std::string &sid,uint64_t ls,uint64_t le,bool ok,const std::string &out,int64_t dl,const std::string &where){
 				bool fine = false; std::string cands;
 				for(const W &w:ws[sid]){ if(w.st >= le) continue; bool dead = false; for(const W &w2:ws[sid]) if(w2.st > w.en && w2.en < ls) dead = true; if(dead) continue;
@@ -194,14 +197,14 @@ struct E7 : Engine {
 				if(fine) return;
 				if(ok) c.fail("corrupted-session-concurrent",where + ": load(" + sid.substr(0,6) + ") returned " + show(out) + " deadline " + std::to_string((long)dl) + " which is not what a save that could be current wrote; candidates:" + cands);
 				else c.fail("live-session-lost",where + ": load(" + sid.substr(0,6) + ") found nothing although every candidate state is a live session:" + cands + " (gc / load / a concurrent save removed or hid it)"); };
-			auto worker = [&](int me){ const J &l = cc.a[me];
+			auto worker = [&](int me){ const J &l = cc.a[me]; bool second = procs == 2 && (me & 1); simk::set_node(second ? 1 : 0); session_storage &S = second ? *st2 : *st; session_file_storage_factory &F = second ? *f2 : f;
 				for(size_t i=0;i<l.size() && i<6 && res.ok;i++){ const J &o = l.a[i]; std::string op = o.gets("op"); std::string sid = sid_name((int)(o.geti("sid") & 1)); std::string where = "thread " + std::to_string(me) + " op#" + std::to_string(i) + " " + op;
 					try {
 					if(op == "save"){ W w; w.present = true; w.s.val = make_payload((int)o.geti("fill") ? 5 : 0,(int)o.geti("len"),(int)(me*16+i),""); w.s.deadline = now0 + o.geti("dl"); size_t idx; { simk::TsanIgnore ign; w.st = ++ev; w.en = UINT64_MAX; ws[sid].push_back(w); idx = ws[sid].size()-1; }
-						st->save(sid,w.s.deadline,w.s.val); { simk::TsanIgnore ign; ws[sid][idx].en = ++ev; } c.cnt["conc_saves"]++; }
-					else if(op == "remove"){ W w; w.present = false; size_t idx; { simk::TsanIgnore ign; w.st = ++ev; w.en = UINT64_MAX; ws[sid].push_back(w); idx = ws[sid].size()-1; } st->remove(sid); { simk::TsanIgnore ign; ws[sid][idx].en = ++ev; } }
-					else if(op == "gc"){ f.gc_job(); c.cnt["conc_gc"]++; }
-					else { uint64_t ls,le; { simk::TsanIgnore ign; ls = ++ev; } time_t dl = 0; std::string out; bool ok = st->load(sid,dl,out); { simk::TsanIgnore ign; le = ++ev; judge_load(sid,ls,le,ok,out,(int64_t)dl,where); c.cnt["conc_loads"]++; } }
+						S.save(sid,w.s.deadline,w.s.val); { simk::TsanIgnore ign; ws[sid][idx].en = ++ev; } c.cnt["conc_saves"]++; }
+					else if(op == "remove"){ W w; w.present = false; size_t idx; { simk::TsanIgnore ign; w.st = ++ev; w.en = UINT64_MAX; ws[sid].push_back(w); idx = ws[sid].size()-1; } S.remove(sid); { simk::TsanIgnore ign; ws[sid][idx].en = ++ev; } }
+					else if(op == "gc"){ F.gc_job(); c.cnt["conc_gc"]++; }
+					else { uint64_t ls,le; { simk::TsanIgnore ign; ls = ++ev; } time_t dl = 0; std::string out; bool ok = S.load(sid,dl,out); { simk::TsanIgnore ign; le = ++ev; judge_load(sid,ls,le,ok,out,(int64_t)dl,where); c.cnt["conc_loads"]++; } }
 					} catch(std::exception const &e){ c.fail("storage-threw",where + ": " + e.what()); } } };
 			{ std::vector<std::thread> thr; for(size_t t=0;t<cc.size() && t<4;t++) thr.emplace_back([&,t]{ worker((int)t); }); for(auto &t:thr) t.join(); }
 			// afterwards: every session holds the last state written (a state no completed later write replaced), and gc run alone keeps the live ones
